@@ -84,7 +84,13 @@ def run(case):
         r = None
         for attempt in range(2):  # a child that is merely slow on a loaded machine is not a hang: it must miss the bound twice
             try:
-                r = subprocess.run([RUNNER, sp], env=env, stdout=subprocess.DEVNULL, stderr=subprocess.PIPE, timeout=180, cwd=work)
+                if case.get("stderrFull"):
+                    # the console is not writable (a daemon whose stderr points to a full device): sinks in front of the file sink fail to write and to flush
+                    with open("/dev/full", "w") as full:
+                        r = subprocess.run([RUNNER, sp], env=env, stdout=subprocess.DEVNULL, stderr=full, timeout=180, cwd=work)
+                    r.stderr = b""
+                else:
+                    r = subprocess.run([RUNNER, sp], env=env, stdout=subprocess.DEVNULL, stderr=subprocess.PIPE, timeout=180, cwd=work)
                 break
             except subprocess.TimeoutExpired:
                 STATS.count("child_timeouts")
@@ -128,8 +134,9 @@ def run(case):
         STATS.cls("rotated_files_present", nrot > 0)
         STATS.cls("contention_at_fatal", bool(case.get("busy") or case.get("slow")))
         STATS.cls("style_" + case["style"])
+        STATS.cls("console_not_writable", bool(case.get("stderrFull")))
         nontrivial = len(pre) >= 1
-        STATS.note_case({k: case[k] for k in ("style", "sink", "L", "compress", "threads", "fatalThread", "fatalVia", "busy", "slow", "siblings", "fatalSize", "app")} | {"old": case.get("old", 0)} | {"npre": len(pre), "sizes": sorted(set(sizes))[:6]}, nontrivial)
+        STATS.note_case({k: case[k] for k in ("style", "sink", "L", "compress", "threads", "fatalThread", "fatalVia", "busy", "slow", "siblings", "fatalSize", "app")} | {"old": case.get("old", 0), "netFile": bool(case.get("netFile")), "stderrFull": bool(case.get("stderrFull"))} | {"npre": len(pre), "sizes": sorted(set(sizes))[:6]}, nontrivial)
         # oracle
         last_pre = -1
         per_thread_last = {}
@@ -148,6 +155,31 @@ def run(case):
             return "the fatal message appears %d times in the files after the process died (expected exactly once); all %d preceding messages present" % (len(fl), len(pre))
         if fl[0] < last_pre:
             return "the fatal message precedes a message that was logged before it"
+        if case.get("netFile") and case["style"] == "nested":
+            # the per-category file: every preceding message of category 'net' (index % 5 == 1), once, per thread in order
+            np = os.path.join(work, "net.log")
+            ndata = open(np, "rb").read() if os.path.exists(np) else b""
+            npos = {}
+            for i, l in enumerate(ndata.split(b"\n")):
+                m = re.search(rb"(m\d+):[a-z0-9]*;end$", l)
+                if m:
+                    npos.setdefault(m.group(0), []).append(i)
+                elif l.strip():
+                    return "net.log holds a line that is no whole record: %r" % l[:120]
+            lastn = {}
+            nnet = 0
+            for idx, (t, size) in enumerate(pre):
+                if idx % 5 != 1:
+                    continue
+                nnet += 1
+                got = npos.get(body("m%d" % idx, size), [])
+                if len(got) != 1:
+                    return "message m%d of category 'net' appears %d times in the per-category log file net.log after the process died (expected once; %d such messages were logged before the fatal one, the file holds %d lines)" % (
+                        idx, len(got), sum(1 for j in range(len(pre)) if j % 5 == 1), len(npos))
+                if got[0] <= lastn.get(t, -1):
+                    return "net.log: messages of thread %d out of order" % t
+                lastn[t] = got[0]
+            STATS.cls("per_category_file_not_reached_by_the_fatal_message", nnet > 0)
         return ""
     finally:
         shutil.rmtree(work, ignore_errors=True)
@@ -183,7 +215,9 @@ def strategy():
             style=style,
             sink=sink,
             L=draw(st.sampled_from([200, 200, 1000, 5000, 20000, 100000])),
-            old=draw(st.integers(0, 3)),  # lines left in app.log by an earlier run (makes on-startup rotation happen)
+            old=draw(st.integers(0, 3)),
+            netFile=draw(st.booleans()) if style == "nested" else False,
+            stderrFull=draw(st.sampled_from([False, False, True])) if style in ("oneline", "ini") else False,  # lines left in app.log by an earlier run (makes on-startup rotation happen)
             compress=draw(st.booleans()),
             pre=pre,
             threads=threads,
